@@ -65,5 +65,47 @@ pub fn run() {
 	cx.note("state_key", json!("(layout class, port config, frame open?, per character: pre/post seen in the open frame, items in the open frame, per character: was ever absent (validity bitmap materialised), rollback offset, splitter progress, gecko seen, ends seen, rows>=2)"));
 	cx.note("assumptions", json!(["presence of a character in a frame occurrence is defined by the reference walker: it has a Pre and a Post event between the frame's opening and closing events"]));
 	run_histories(A_ONESHOT, A_ROWS, true);
+	run_bfs(A_ROWS | A_BYTES | A_TRANSPOSE);
 	finish(cx);
+}
+
+
+/// Explicit-state search to closure over the abstract parser states (see bfs.rs).
+pub fn run_bfs(aspects: i64) {
+	use crate::bfs::{explore, Cfg};
+	let cx = ctx();
+	let quick = cx.quick();
+	let mut cfgs: Vec<Cfg> = vec![];
+	let versions: Vec<(u8, u8)> = if quick { vec![(0, 1), (2, 2), (3, 16)] } else { vec![(0, 1), (1, 4), (2, 0), (2, 2), (2, 255), (3, 0), (3, 6), (3, 7), (3, 16)] };
+	for v in versions {
+		let port_sets: Vec<Vec<PortCfg>> = if quick {
+			vec![vec![pc(1, false)], vec![pc(2, true)], vec![pc(0, false), pc(3, false)]]
+		} else {
+			vec![vec![pc(1, false)], vec![pc(2, true)], vec![pc(0, false), pc(3, false)], vec![pc(0, true), pc(2, false)], vec![pc(1, false), pc(2, false), pc(3, false)]]
+		};
+		for ports in port_sets {
+			cfgs.push(Cfg { ver: v, ports, max_items: if quick { 1 } else { 2 }, rollbacks: true });
+		}
+	}
+	let results = std::sync::Mutex::new(vec![]);
+	par_each(cfgs.into_iter(), |cfg, local| {
+		let st = explore(&cfg, if quick { 20_000 } else { 400_000 }, if quick { 1 } else { 3 }, aspects, local);
+		results.lock().unwrap().push(serde_json::json!({
+			"version": format!("{}.{}", cfg.ver.0, cfg.ver.1),
+			"characters": crate::rec::n_chars(&cfg.ports),
+			"abstract_states": st.states,
+			"transitions": st.transitions,
+			"revisits_executed": st.revisits_executed,
+			"max_depth_events": st.max_depth,
+			"closed": st.closed,
+		}));
+	});
+	let mut r = results.into_inner().unwrap();
+	r.sort_by_key(|v| v.to_string());
+	let total_states: u64 = r.iter().map(|v| v["abstract_states"].as_u64().unwrap()).sum();
+	let all_closed = r.iter().all(|v| v["closed"].as_bool().unwrap());
+	cx.note("bfs", serde_json::json!({"what": "explicit-state BFS to closure over abstract parser states (phase, characters with pre in the open frame, items, ever-absent set, rows capped, rollback offset clamped); each transition = one real parse_event call judged against the reference walker; revisits of known states executed as an abstraction-soundness check", "configurations": r, "total_abstract_states": total_states, "all_closed": all_closed}));
+	if !all_closed {
+		cx.cap("bfs: at least one configuration hit the state cap before closure".into());
+	}
 }
